@@ -25,6 +25,13 @@ func TestSendBeforeClientSpeaks(t *testing.T) {
 		version := []string{"v1", "v2"}[rapid.IntRange(0, 1).Draw(rt, "version")]
 		payload := hx.Stream(77, rapid.IntRange(0, 3000).Draw(rt, "payload"))
 		greeting := []byte("220 upstream ready\r\n")
+		bye := []byte("221 bye\r\n")
+		// now and then the client takes its time after the greeting (longer than any sensible bound on writing the
+		// header): whatever was armed for the header must not outlive it
+		lateBy := time.Duration(0)
+		if rapid.IntRange(0, 99999).Draw(rt, "lateClient")%400 == 137 { // (rapid favours the ends of a range: a residue is not favoured)
+			lateBy = 3300 * time.Millisecond
+		}
 		ln, err := hx.Listen("tcp", "127.0.0.1:0")
 		if err != nil {
 			rt.Fatalf("listen: %v", err)
@@ -75,6 +82,7 @@ func TestSendBeforeClientSpeaks(t *testing.T) {
 			} else {
 				r.rest = got
 			}
+			_, _ = c.Write(bye) // the client has finished: a last line for it
 			resCh <- r
 		}()
 		rl, err := rx.Routes(rx.BareCtx(), []rx.R{{Handle: []map[string]any{rx.H("proxy", "proxy_protocol", version, "upstreams", []map[string]any{{"dial": []string{ln.Addr().String()}}})}}})
@@ -93,6 +101,7 @@ func TestSendBeforeClientSpeaks(t *testing.T) {
 			_, _, w := under.Snapshot()
 			return bytes.Contains(w, greeting)
 		})
+		time.Sleep(lateBy)
 		under.Push(payload)
 		under.SetEnd(hx.EndEOF)
 		var herr error
@@ -114,7 +123,16 @@ func TestSendBeforeClientSpeaks(t *testing.T) {
 			hx.Fail(rt, "C12", "sent-stream", "after the header the upstream received %d bytes, want the client's %d-byte stream (first difference at %d)\n  %s", len(r.rest), len(payload), hx.FirstDiff(r.rest, payload), desc)
 			return
 		}
-		hx.Case(hx.Hash("speaksfirst", version, len(payload)), true, "C12/send", "C12/send-server-speaks-first")
+		if _, _, w := under.Snapshot(); !bytes.HasSuffix(w, bye) {
+			hx.Fail(rt, "C12", "upstream-reply-lost", "the upstream's last line, written after it had seen the end of the client's stream (the client sent %v after the greeting), did not reach the client: it received %q\n  %s", lateBy, w, desc)
+			return
+		}
+		cl := []string{"C12/send", "C12/send-server-speaks-first"}
+		if lateBy > 0 {
+			cl = append(cl, "C12/send-late-client")
+		}
+		hx.Case(hx.Hash("speaksfirst", version, len(payload), lateBy), true, cl...)
+		return
 		hx.Sample("send-first/"+version, map[string]any{"version": version, "payload": len(payload), "header_after": r.waited.String()})
 	})
 }
